@@ -717,6 +717,10 @@ class ParallelProcess(Process):
         self.profile = profile
         self._stats_objs = stats_objs
         assert not self.profile or self._stats_objs is not None
+        # Whether the process is a step never changes. Answer from the
+        # parent, so that asking needs no command (the process may have
+        # an update in flight when structural updates ask).
+        self._is_step = process.is_step()
         # Linux's default ``fork`` start method causes a lot of random
         # issues, including python/cpython#110770 (prompted this change)
         # and python/cpython#84559 (general discussion). This default
@@ -819,7 +823,7 @@ class ParallelProcess(Process):
         return self.run_command('calculate_timestep', (states,))
 
     def is_step(self) -> bool:
-        return self.run_command('is_step')
+        return self._is_step
 
     def get_private_state(self) -> State:
         return self.run_command('get_private_state')
